@@ -50,13 +50,13 @@ Theorem C16_incomplete_assign_refuted : IncompleteAssign_refuted_stmt. Proof. ex
 Print Assumptions C16_incomplete_assign_refuted.
 
 (* C18 *)
-Theorem C18_no_race : forall val arg res reads writes exec, NoRace_stmt val arg res reads writes exec.
+Theorem C18_no_race : forall arg reads writes, NoRace_stmt arg reads writes.
 Proof. exact no_race. Qed.
 Print Assumptions C18_no_race.
 Theorem C18_sequential_results : forall val arg res reads writes exec,
   (forall n σ a x, ~ In x (writes n) -> fst (exec n σ a) x = σ x) ->
   (forall n σ σ' a, (forall x, In x (reads n) -> σ x = σ' x) -> snd (exec n σ a) = snd (exec n σ' a)) ->
-  SequentialResults_stmt val arg res reads writes exec.
+  SequentialResults_stmt val arg res writes exec.
 Proof. exact sequential_results. Qed.
 Print Assumptions C18_sequential_results.
 Theorem C18_description_read_only : DescReadOnly_stmt.                 Proof. exact desc_read_only. Qed.
